@@ -73,7 +73,7 @@ def bp_mutation(rng, reg, names, funcs, sizes, SR, via=None):
 
 def gen(rng, kind):
     regs = Regs()
-    SR = rng.choice([100, 1000.0, 1e4])
+    SR = rng.choice([100, 1000.0, 1e4, 1e9, 2.4e9])       # GS/s rates: one sample is below numpy's default tolerances
     N = rng.randint(6, 24)
     muts = []
     if kind == "bp":
@@ -109,12 +109,14 @@ def gen(rng, kind):
         for _ in range(rng.choice([0, 1, 1, 2])):
             c = rng.choice(chans)
             k = rng.random()
+            if k < 0.12:
+                k = 0.8                         # a flags mutation (explicit all-off flags vs. no flags included)
             if k < 0.7:
                 m = bp_mutation(rng, None, *meta[c], SR, via=(x, c))
                 while m[0][0] != "E":
                     m = bp_mutation(rng, None, *meta[c], SR, via=(x, c))
             elif k < 0.85:
-                m = ("EAddFlags", x, c, [rng.choice([0, 1, 2, 3]) for _ in range(4)])
+                m = ("EAddFlags", x, c, rng.choice([[rng.choice([0, 1, 2, 3]) for _ in range(4)], [0, 0, 0, 0], ["", "", "", ""]]))
             else:
                 r2, ops, *_ = base_bp(rng, regs, SR, N)
                 prog += ops
